@@ -52,6 +52,9 @@ pub struct ScriptReader<'a> {
     pub short_reads: u32,
     pub interrupts: u32,
     pub hard: Option<(ErrorKind, String)>,
+    /// builds a hard error whose payload is one of the crate's own `GeneratorError` values
+    /// (`Hard(k)` with k >= 6); None: every hard error carries a text payload
+    pub payload_err: Option<&'a dyn Fn(ErrorKind, u8) -> io::Error>,
     /// what `Ev::Nested` runs (None: `Nested` behaves as `Deliver`)
     pub nested: Option<&'a dyn Fn(u32) -> Result<(), String>>,
     pub nested_calls: u32,
@@ -73,6 +76,7 @@ impl<'a> ScriptReader<'a> {
             short_reads: 0,
             interrupts: 0,
             hard: None,
+            payload_err: None,
             nested: None,
             nested_calls: 0,
             nested_failure: None,
@@ -143,6 +147,14 @@ impl<'a> Read for ScriptReader<'a> {
             Ev::Hard(k) => {
                 self.ended = true;
                 let kind = HARD_KINDS[k as usize % HARD_KINDS.len()];
+                if k >= 6 {
+                    if let Some(mk) = self.payload_err {
+                        // same kind, but the payload is a GeneratorError value of the library
+                        let e = mk(kind, k);
+                        self.hard = Some((kind, e.to_string()));
+                        return Err(e);
+                    }
+                }
                 let tag = format!("verif-hard-error-{}-at-{}", k, self.pos);
                 self.hard = Some((kind, tag.clone()));
                 Err(io::Error::new(kind, tag))
@@ -195,8 +207,10 @@ pub fn case_script(api: &dyn GlobalApi, va: &dyn VariantApi, s: &Script, st: &Ca
             }
             Ok(())
         };
+        let payload = |kind: ErrorKind, k: u8| api.io_error_with_generator_payload(kind, k);
         let mut rd = ScriptReader::new(&data, &s.events);
         rd.nested = Some(&nested);
+        rd.payload_err = Some(&payload);
         let r = catch(|| if use_global { api.hash_stream_normal(&mut rd) } else { va.hash_stream(&mut rd) })
             .map_err(|p| format!("{}: {} panicked: {}", v.name, what, p))?
             .ok_or("stream helpers not compiled")?;
@@ -296,7 +310,7 @@ fn script_strategy(v: vmodel::Variant, big_weight: u32) -> impl Strategy<Value =
     let ev = prop_oneof![
         6 => prop_oneof![1u32..=9, 1u32..=5000, Just(1u32 << 20), (1u32 << 20) - 3..=(1u32 << 20)].prop_map(Ev::Deliver),
         3 => Just(Ev::Interrupted),
-        1 => (0u8..6).prop_map(Ev::Hard),
+        1 => (0u8..12).prop_map(Ev::Hard),
         1 => Just(Ev::Eof),
         1 => prop_oneof![4 => 1u32..=5000, 1 => Just(1u32 << 20)].prop_map(Ev::Nested),
         1 => prop_oneof![3 => 2u32..300, 1 => Just(255u32), 1 => Just(256), 1 => Just(257), 1 => Just(65_535), 1 => Just(65_536), 1 => Just(65_537), 1 => Just(70_000), 1 => Just(131_073)].prop_map(Ev::Burst),
